@@ -442,17 +442,13 @@ def sampleDetail : List (List Char) :=
 
 def sampleBatch : List Item :=
   [ .error "/tmp/tmpab12cd_9/src/lorem/program.scala".toList "3".toList "17".toList
-      "[E007] Type Mismatch ".toList 20 sampleDetail,
+      "[E007] Type Mismatch ".toList 4 ["3 |  val x: Int = \"a\"".toList, "  |    ^^^".toList],
     .warning "/tmp/tmpab12cd_9/src/ipsum/program.scala".toList "5".toList "2".toList
-      "[E129] Potential Issue ".toList 20
-      ["5 |  1".toList, "  |  ^".toList, "  |  A pure expression does nothing in statement position".toList],
+      "[E129] Potential Issue ".toList 4 ["5 |  1".toList],
     .error "/tmp/tmpab12cd_9/src/ipsum/program.scala".toList "12".toList "8".toList
-      "[E008] Not Found ".toList 24
-      ["12 |  val y = foo(1)".toList, "   |          ^^^".toList, "   |          Not found: foo".toList],
+      "[E008] Not Found ".toList 5 ["12 |  foo(1)".toList, "   |  Not found: foo".toList],
     .error "/tmp/tmpab12cd_9/src/dolor/program.scala".toList "40".toList "21".toList
-      "".toList 30
-      ["40 |  def f(): String = 1".toList, "   |                    ^".toList, [],
-       "longer explanation available when compiling with `-explain`".toList],
+      "".toList 3 ["40 |  1".toList, [], "see `-explain`".toList],
     .summary "3".toList ]
 
 theorem sampleBatch_wf : ∀ i ∈ sampleBatch, WFItem .scalac i := by decide +kernel
